@@ -25,6 +25,7 @@ from .common import Result, digest, enc_str
 THEOREMS = [
     "MySensors.C18.parse_render", "MySensors.C18.sectionsLt_iff", "MySensors.C18.is_version_iff",
     "MySensors.C18.floor", "MySensors.C18.floor_unique", "MySensors.C18.rejected_falls_back",
+    "MySensors.C18.nonnumeric_falls_back",
     "MySensors.C18.v2_0", "MySensors.C18.v2_0_0", "MySensors.C18.v2_0_5", "MySensors.C18.v2_3",
     "MySensors.C18.v2_2_0", "MySensors.C18.v1_3", "MySensors.C18.v0_x", "MySensors.C18.v_ge_2_2",
     "MySensors.C18.pick_of_sublist", "MySensors.C18.options_masks", "MySensors.C18.options",
